@@ -120,8 +120,8 @@ func (ctx *BrokerContext) Broker() {
 			case <-time.After(time.Second * ProxyTimeout):
 				// This snowflake is no longer available to serve clients.
 				ctx.snowflakeLock.Lock()
-				defer ctx.snowflakeLock.Unlock()
-				if snowflake.index != -1 {
+				claimed := snowflake.index == -1
+				if !claimed {
 					if request.natType == NATUnrestricted {
 						heap.Remove(ctx.snowflakes, snowflake.index)
 					} else {
@@ -130,6 +130,12 @@ func (ctx *BrokerContext) Broker() {
 					ctx.metrics.promMetrics.AvailableProxies.With(prometheus.Labels{"nat": request.natType, "type": request.proxyType}).Dec()
 					delete(ctx.idToSnowflake, snowflake.id)
 					close(request.offerChannel)
+				}
+				ctx.snowflakeLock.Unlock()
+				if claimed {
+					// A client took this snowflake off the heap before the
+					// timeout was handled and is about to send its offer.
+					request.offerChannel <- <-snowflake.offerChannel
 				}
 			}
 		}(request)
@@ -146,7 +152,8 @@ func (ctx *BrokerContext) AddSnowflake(id string, proxyType string, natType stri
 	snowflake.proxyType = proxyType
 	snowflake.natType = natType
 	snowflake.offerChannel = make(chan *ClientOffer)
-	snowflake.answerChannel = make(chan string)
+	// Buffered so that ProxyAnswers never has to wait for the client.
+	snowflake.answerChannel = make(chan string, 1)
 	ctx.snowflakeLock.Lock()
 	if natType == NATUnrestricted {
 		heap.Push(ctx.snowflakes, snowflake)
